@@ -28,7 +28,7 @@ T = {
  'C06': ('property-based testing: valid stream + arbitrary trailing bytes x chunkings x entry points; oracle = exact encoded length from the grammar bit writer / reference inflater',
          'Encoded length is computed independently (bit writer, reference inflater) and compared with the consumed totals of the flat decoder, 32 KiB ring, inflate(), mz_inflate (total_in and next_in) and tinfl_decompress, for final blocks ending at all 8 bit offsets and read-ahead tiers; zlib streams also with the checksum ignored and with the input cut inside the trailer.', 'Trailing bytes include look-alike headers. Reference inflater trusted.', '6/C06'),
  'C07': ('property-based testing, metamorphic relation (one-call result == result under any input partition / output budget), exhaustive over every cut point for short inputs',
-         'For valid and invalid inputs the (output, status, consumed) triple of a maximal-call run is compared with every single cut point, byte-wise feeding, small budgets, random partitions and ring sizes, in release and debug builds; evidence lists the (state, status) suspension points reached.', 'The oracle is the crate itself under a different schedule plus the reference plaintext for valid streams; for inflate() on invalid input only verdict and prefix relation are compared (pending window data is dropped on error as in miniz).', '6/C07'),
+         'For valid and invalid inputs the (output, status, consumed) triple of a maximal-call run is compared with every single cut point, byte-wise feeding, small budgets, random partitions and ring sizes, plus exact-size output slices with the input cut inside the zlib trailer (core call and decompress_slice_iter_to_slice), in release and debug builds; evidence lists the (state, status) suspension points reached.', 'The oracle is the crate itself under a different schedule plus the reference plaintext for valid streams; for inflate() on invalid input only verdict and prefix relation are compared (pending window data is dropped on error as in miniz).', '6/C07'),
  'C08': ('property-based testing with canary-filled output buffers compared byte-for-byte outside the granted region after every call; limit functions checked against the reference plaintext',
          'Every call of generated schedules (budgets concentrated on small values so calls end inside match copies, flat slices smaller than the output, rings 2^0..2^16, non-zero start positions) is followed by a full comparison of the slice outside [out_pos, out_pos+written); status truthfulness and driver termination bound are asserted; limit functions at 0, n-1, n, n+1, 2n, huge.', 'Reference inflater supplies plaintext.', '6/C08'),
  'C10': ('property-based testing: token-level inspection of compressor output by an independent reference decoder + metamorphic compression-ratio relation',
